@@ -139,6 +139,7 @@ func stressCmd(dur time.Duration, goroutines int, seed uint64, outFile string) i
 }
 
 func stressRun(dur time.Duration, goroutines int, seed uint64, outFile string) int {
+	observeUnknownAPI = true
 	var nReq, nOp, nReent, bad, rounds, nLate atomic.Int64
 	var firstBad atomic.Value
 	fail := func(format string, a ...any) {
@@ -174,7 +175,7 @@ func stressRun(dur time.Duration, goroutines int, seed uint64, outFile string) i
 		}
 		adm := make([]map[string]bool, len(reqs))
 		plain := stressHandler{}
-		pass := new(cors.Middleware).Wrap(plain)
+		pass := zeroMW().Wrap(plain)
 		for i, q := range reqs {
 			o, _ := stressServe(pass, q, nil)
 			adm[i] = map[string]bool{o: true}
@@ -193,7 +194,7 @@ func stressRun(dur time.Duration, goroutines int, seed uint64, outFile string) i
 				// Reconfigure(Config()) is one of the operator calls: the first round trip
 				// may legitimately collapse redundant patterns (C06), so the normal form
 				// after a round trip is admissible too (it is a fixpoint from then on)
-				if m2, err := cors.NewMiddleware(*m.Config()); err == nil {
+				if m2, err := mkMW(*m.Config()); err == nil {
 					admCfg[cfgKeyOf(m2.Config())] = true
 				}
 			}
